@@ -19,6 +19,9 @@ offering the surface paramiko documents for socket-like objects
 * `set_full(True)`: the receiver has stopped reading and every buffer on the way is full - `send` accepts
   nothing: it waits out the sender's timeout and raises `socket.timeout` (waits for good without a timeout)
   until `set_full(False)`, EOF or close (then: broken pipe). `blocked_senders` = senders waiting right now;
+* `set_send_error(exc)`: the connection died with an error (RST, ICMP unreachable ...): as on a kernel socket that
+  kills the SEND side too - a sender waiting on a full direction and every later `send` raise `exc` instead of being
+  accepted / timing out (default None: sending is not affected by `set_error`, which is the receive side only);
 * `reader_blocked`: True while the receiving side sits in `recv` with nothing to read —
   for a paramiko Transport this means its thread has processed everything delivered.
 """
@@ -52,16 +55,21 @@ class Direction:
         self.full = False
         self.blocked_senders = 0
         self.refused = 0  # send attempts that timed out against a full direction
+        self.send_error = None  # set_send_error(): what send raises from now on
 
     # -- sender side
     def push(self, data, timeout=None):
         data = bytes(data)
         with self.cv:
+            if self.send_error is not None:
+                raise self.send_error
             if self.full and not self.eof:
                 end = None if timeout is None else time.time() + timeout
                 self.blocked_senders += 1
                 try:
                     while self.full and not self.eof:
+                        if self.send_error is not None:
+                            raise self.send_error
                         if end is None:
                             self.cv.wait(1.0)
                         else:
@@ -72,6 +80,8 @@ class Direction:
                             self.cv.wait(left)
                 finally:
                     self.blocked_senders -= 1
+                if self.send_error is not None:
+                    raise self.send_error
             if self.eof:
                 return -1
             self.sent.append(data)
@@ -163,6 +173,12 @@ class Direction:
         """Send side full (the peer has stopped reading): senders get nothing accepted until switched off / EOF."""
         with self.cv:
             self.full = on
+            self.cv.notify_all()
+
+    def set_send_error(self, exc):
+        """The connection died with an error: senders blocked on a full direction and later senders raise `exc`."""
+        with self.cv:
+            self.send_error = exc
             self.cv.notify_all()
 
     def set_eof(self):
